@@ -25,7 +25,11 @@ func init() {
 		Setup:   cliSetup,
 		Run: func(env *core.Env, ci any) core.Outcome {
 			c := ci.(*MCase)
-			v := judgeModelBoth(env, c, canon.Options{}, 4)
+			opts := canon.Options{}
+			if strings.HasPrefix(c.Tag, "import-decl") {
+				opts.MaskImports = true
+			}
+			v := judgeModelBoth(env, c, opts, 4)
 			return c04Classify(c, v)
 		},
 	})
@@ -220,6 +224,9 @@ func c04Gen(tier string, emit func(any)) {
 		}
 	}
 	c04ForHeader(tier, emit)
+	for _, c := range importDeclCases("import-decl", false) {
+		emit(c)
+	}
 }
 
 type c04Change struct {
@@ -378,6 +385,9 @@ func c04Classify(c *MCase, v mverdict) core.Outcome {
 		return o
 	}
 	parts := strings.Split(c.Tag, "/")
-	o.FindingKey = "C04:" + o.FindingKey + "/" + parts[0] + "/" + parts[1]
+	o.FindingKey = "C04:" + o.FindingKey + "/" + parts[0]
+	if len(parts) > 1 {
+		o.FindingKey += "/" + parts[1]
+	}
 	return o
 }
